@@ -11,7 +11,7 @@ import (
 )
 
 func init() {
-	props["C03"] = &propDef{run: runC03, explanation: "Structural clause of C03 decided statically: in ParseCreateOperation the returned unique suffix is GetUniqueSuffix applied to the very suffix-data object that was decoded from the request (json.Unmarshal target, hence independent of member order and whitespace), validated and stored in the model; the success term of GetUniqueSuffix is b64(mhEnc(H(algs[0],JCS(suffixData)),algs[0])) behind a non-empty-algorithm guard; ParseOperation stores ID = namespace + \":\" + suffix; outside batch mode acceptance lies behind IsValidModelMultihash(schema.Delta, schema.SuffixData.DeltaHash) on the same decoded request. Not decided: collision resistance; that Transform implements JCS (C05). (E1) ValidateSuffixData / ValidateDelta are read-only: nothing reachable from their inputs is written before hashing. (K2) the JSON member names and omitempty options of the create-side models are the wire format's (closed table)."}
+	props["C03"] = &propDef{run: runC03, explanation: "Structural clause of C03 decided statically: in ParseCreateOperation the returned unique suffix is GetUniqueSuffix applied to the very suffix-data object that was decoded from the request (json.Unmarshal target, hence independent of member order and whitespace), validated and stored in the model; the success term of GetUniqueSuffix is b64(mhEnc(H(algs[0],JCS(suffixData)),algs[0])) behind a non-empty-algorithm guard; ParseOperation stores ID = namespace + \":\" + suffix; outside batch mode acceptance lies behind IsValidModelMultihash(schema.Delta, schema.SuffixData.DeltaHash) on the same decoded request. Not decided: collision resistance; that Transform implements JCS (C05). (E1) ValidateSuffixData / ValidateDelta are read-only: nothing reachable from their inputs is written before hashing. (K2) the JSON member names and omitempty options of the create-side models are the wire format's (closed table). The parser and the applier never assign a protocol parameter (C03.K1)."}
 	props["C06"] = &propDef{run: runC06, explanation: "Structural clause of C06 decided statically: success terms of CalculateModelMultihash, CalculateID, GetMultihash, GetMultihashCode and the encoder equal the documented normal forms (b64 = base64.RawURLEncoding in both directions); IsValidModelMultihash recomputes with the code decoded from the supplied hash over the supplied model and accepts only on the false edge of computed != supplied, with decode errors propagated; IsComputedUsingMultihashAlgorithms returns true only behind a successful decode and an equality between the decoded code and one of the supplied codes; the hash leaf contracts (code table with error default, single Write, Sum(nil)). Not decided: 'equal iff JSON values equal' beyond this shape (needs JCS injectivity and collision resistance)."}
 }
 
@@ -58,77 +58,41 @@ func runC06(c *Ctx) {
 		c.CheckGuard("C06.P2", "GetMultihash:multihash-error-propagated", gmh, nil, callTo("multihash.Decode of the decoded bytes", mhD))
 		c.CheckGuard("C06.P2", "GetMultihashCode:decode-error-propagated", gmc, nil, callTo("GetMultihash(encoded)", gmh, pathIs("$0")))
 	}
+	// … and they refuse nothing else: a hash the library computes (any supported algorithm, any digest length) reads
+	// back — GetMultihashCode says no only when GetMultihash does, GetMultihash only when one of the two decoders does
+	for _, fr := range []struct {
+		name string
+		f    *ssa.Function
+		ok   func(r string) bool
+	}{
+		{"GetMultihashCode", gmc, func(r string) bool {
+			return strings.Contains(r, "DecodeString(") || strings.Contains(r, "go-multihash.Decode(")
+		}},
+		{"GetMultihash", gmh, func(r string) bool {
+			return strings.Contains(r, "DecodeString(") || strings.Contains(r, "go-multihash.Decode(")
+		}},
+	} {
+		if fr.f == nil {
+			continue
+		}
+		var extra []string
+		rs := c.rejectionReasons(fr.f, nil, false, 0)
+		for _, r := range rs {
+			if !fr.ok(r) {
+				extra = append(extra, r)
+			}
+		}
+		c.Check("C06.P2", fr.name+":no-refusal-of-its-own", len(extra) == 0 && len(rs) > 0, fr.f.Pos(), fmt.Sprintf("%s refuses only what the base64 / multihash decoders refuse (deciding conditions: %v)", fr.name, rs), extra...)
+	}
 	c.Min("C06.P1", 2)
-	c.Min("C06.P2", 5)
+	c.Min("C06.P2", 7)
 	c.Min("C06.K1", 2)
 
 	// ---- G1 IsValidModelMultihash
 	c.isValidModelMultihashContract("C06.G1")
 
 	// ---- U1 IsComputedUsingMultihashAlgorithms
-	c.CheckGuard("C06.U1", "IsComputedUsing:decode-ok", icu, nil, callTo("GetMultihashCode(encoded)", gmc, pathIs("$0")))
-	// the same test written as slices.ContainsFunc(codes, func(c) bool { return code == uint64(c) }): the function's
-	// true result is that call's result
-	eqSearch := false
-	for _, r := range returnsOf(icu) {
-		if cl, ok := r.Results[0].(*ssa.Call); ok {
-			if fn, other := equalityClosureSearch(cl); fn != nil && c.Path(cl.Call.Args[0], nil) == "$1" {
-				// the compared value: a captured variable (by value, or by reference: a cell written once)
-				var fv *ssa.FreeVar
-				byRef := false
-				switch y := other.(type) {
-				case *ssa.FreeVar:
-					fv = y
-				case *ssa.UnOp:
-					if y.Op == token.MUL {
-						fv, _ = y.X.(*ssa.FreeVar)
-						byRef = true
-					}
-				}
-				if mc, isMC := cl.Call.Args[1].(*ssa.MakeClosure); isMC && fv != nil {
-					for k, b := range mc.Bindings {
-						if fn.FreeVars[k] != fv {
-							continue
-						}
-						const want = "hashing.GetMultihashCode($0)#0"
-						if !byRef && c.Path(b, nil) == want {
-							eqSearch = true
-						}
-						if al, isAl := b.(*ssa.Alloc); isAl && byRef {
-							n, good := 0, 0
-							for _, rf := range *al.Referrers() {
-								if st, isS := rf.(*ssa.Store); isS && st.Addr == ssa.Value(al) {
-									n++
-									if c.Path(st.Val, nil) == want {
-										good++
-									}
-								}
-							}
-							if n > 0 && n == good {
-								eqSearch = true
-							}
-						}
-					}
-				}
-			}
-		}
-	}
-	if eqSearch {
-		c.Check("C06.U1", "IsComputedUsing:code-equality", true, icu.Pos(), "the result is slices.ContainsFunc(codes, c => decoded code == uint64(c))")
-	} else {
-		c.CheckGuard("C06.U1", "IsComputedUsing:code-equality", icu, nil, &GCheck{Name: "decoded code == uint64(one of the supplied codes)", MatchCmp: func(c *Ctx, b *ssa.BinOp, env Env) (bool, bool) {
-			if b.Op != token.EQL && b.Op != token.NEQ {
-				return false, false
-			}
-			l, r := c.Path(b.X, env), c.Path(b.Y, env)
-			isCode := func(s string) bool { return s == "hashing.GetMultihashCode($0)#0" }
-			isElem := func(s string) bool { return strings.HasPrefix(s, "conv<uint64>($1[") }
-			if (isCode(l) && isElem(r)) || (isCode(r) && isElem(l)) {
-				return true, b.Op == token.EQL
-			}
-			return false, false
-		}})
-	}
+	c.isComputedUsingRule("C06.U1")
 	c.Min("C06.U1", 2)
 
 	c.hashLeafContracts("C04.K1")
@@ -196,21 +160,18 @@ func runC03(c *Ctx) {
 	}
 	c.Analysed(pco)
 	// schema: the decoded create request
-	var schemaCall *ssa.Call
-	for _, cl := range findCalls(pco, func(cl *ssa.Call) bool {
-		a := declArgs(cl)
-		return len(a) == 1 && c.Path(a[0], nil) == "$1" && strings.Contains(typeShort(cl.Type()), "CreateRequest")
-	}) {
-		schemaCall = cl
-		break
-	}
-	if schemaCall == nil {
+	sr := c.requestSchema(pco, "CreateRequest")
+	if sr == nil {
 		c.Check("C03.P1", "ParseCreateOperation:schema", false, pco.Pos(), "no request-decoding call on the request parameter")
 		return
 	}
-	SC := c.Path(schemaCall, nil) + "#0"
+	SC := sr.SC
 	// the decoder: success result is a struct allocation filled by json.Unmarshal(payload, &alloc)
-	if dec := schemaCall.Call.StaticCallee(); dec != nil {
+	if sr.call == nil {
+		jsonU := c.ExtFn("encoding/json", "Unmarshal")
+		c.Check("C03.P1", "ParseCreateOperation:schema-is-decoded-struct", true, pco.Pos(), "the create request is the struct decoded in place by encoding/json from the request bytes")
+		c.CheckGuard("C03.P1", "ParseCreateOperation:decode-error-propagated", pco, nil, callTo("json.Unmarshal(payload, schema)", jsonU, pathIs("$1")))
+	} else if dec := sr.dec; dec != nil {
 		c.Analysed(dec)
 		okDec := false
 		jsonU := c.ExtFn("encoding/json", "Unmarshal")
@@ -315,6 +276,10 @@ func runC03(c *Ctx) {
 	c.isValidModelMultihashContract("C03.G1")
 	c.Min("C03.G1", 7)
 	c.hashLeafContracts("C04.K1")
+	// "the FIRST CONFIGURED algorithm": the list the suffix is computed from is the list the caller configured — the
+	// parser does not keep a reordered or extended copy of its protocol parameters
+	c.protocolReadOnlyRule("C03.K1")
+	c.Min("C03.K1", 2)
 	// the suffix is a hash of the canonical form: the JCS constant/table rules are part of this check
 	c.jcsRules()
 	c.Assume("collision resistance of SHA-2; Transform implements RFC 8785 (C05 decides only its constants)")
@@ -479,4 +444,78 @@ func (c *Ctx) isValidModelMultihashContract(rule string) {
 	tt := normalize(c.SuccessTerm(cmm, 0, nil))
 	t := tt.String()
 	c.Check(rule, "CalculateModelMultihash:term", termIs(tt, "b64(mhEnc(H($1,JCS($0)),$1))"), cmm.Pos(), "CalculateModelMultihash(v,a) = "+t)
+}
+
+// isComputedUsingRule: "computed with a configured algorithm" is said only of a well-formed multihash — the code
+// compared with the configured ones is the one GetMultihashCode decodes (which fails for a malformed multihash).
+func (c *Ctx) isComputedUsingRule(rule string) {
+	icu := c.Fn("hashing", "IsComputedUsingMultihashAlgorithms")
+	gmc := c.Fn("hashing", "GetMultihashCode")
+	if icu == nil || gmc == nil {
+		c.Unresolved(rule, "hashing.IsComputedUsingMultihashAlgorithms / GetMultihashCode")
+		return
+	}
+	c.CheckGuard(rule, "IsComputedUsing:decode-ok", icu, nil, callTo("GetMultihashCode(encoded)", gmc, pathIs("$0")))
+	// the same test written as slices.ContainsFunc(codes, func(c) bool { return code == uint64(c) }): the function's
+	// true result is that call's result
+	eqSearch := false
+	for _, r := range returnsOf(icu) {
+		if cl, ok := r.Results[0].(*ssa.Call); ok {
+			if fn, other := equalityClosureSearch(cl); fn != nil && c.Path(cl.Call.Args[0], nil) == "$1" {
+				// the compared value: a captured variable (by value, or by reference: a cell written once)
+				var fv *ssa.FreeVar
+				byRef := false
+				switch y := other.(type) {
+				case *ssa.FreeVar:
+					fv = y
+				case *ssa.UnOp:
+					if y.Op == token.MUL {
+						fv, _ = y.X.(*ssa.FreeVar)
+						byRef = true
+					}
+				}
+				if mc, isMC := cl.Call.Args[1].(*ssa.MakeClosure); isMC && fv != nil {
+					for k, b := range mc.Bindings {
+						if fn.FreeVars[k] != fv {
+							continue
+						}
+						const want = "hashing.GetMultihashCode($0)#0"
+						if !byRef && c.Path(b, nil) == want {
+							eqSearch = true
+						}
+						if al, isAl := b.(*ssa.Alloc); isAl && byRef {
+							n, good := 0, 0
+							for _, rf := range *al.Referrers() {
+								if st, isS := rf.(*ssa.Store); isS && st.Addr == ssa.Value(al) {
+									n++
+									if c.Path(st.Val, nil) == want {
+										good++
+									}
+								}
+							}
+							if n > 0 && n == good {
+								eqSearch = true
+							}
+						}
+					}
+				}
+			}
+		}
+	}
+	if eqSearch {
+		c.Check(rule, "IsComputedUsing:code-equality", true, icu.Pos(), "the result is slices.ContainsFunc(codes, c => decoded code == uint64(c))")
+	} else {
+		c.CheckGuard(rule, "IsComputedUsing:code-equality", icu, nil, &GCheck{Name: "decoded code == uint64(one of the supplied codes)", MatchCmp: func(c *Ctx, b *ssa.BinOp, env Env) (bool, bool) {
+			if b.Op != token.EQL && b.Op != token.NEQ {
+				return false, false
+			}
+			l, r := c.Path(b.X, env), c.Path(b.Y, env)
+			isCode := func(s string) bool { return s == "hashing.GetMultihashCode($0)#0" }
+			isElem := func(s string) bool { return strings.HasPrefix(s, "conv<uint64>($1[") }
+			if (isCode(l) && isElem(r)) || (isCode(r) && isElem(l)) {
+				return true, b.Op == token.EQL
+			}
+			return false, false
+		}})
+	}
 }
